@@ -3,7 +3,7 @@ import IcyVerif.Lemmas.ArtAnsiRows
 import IcyVerif.Lemmas.ArtAnsiXRows
 /-! # C04 — ANSI files written by the engine parse back to the same picture
 
-FULL STATEMENT (`ansi_rt`, not proved in this generality):
+FULL STATEMENT (`ansi_rt`, PROVED in Props/C04X.lean together with `output_line_length`, `skip_lines` and font pages):
   for every single-layer picture `p` (width 80, or any width 1..=132 carried by SAUCE; height 1..=60) whose cells hold
   CP437 characters the chosen control-character handling can encode, palette / xterm-256 / RGB colours, bold, blink and
   the extended attributes the writer emits, for every `o : AnsiOpts` (compress, cursor-forward, repeat sequences,
@@ -11,6 +11,8 @@ FULL STATEMENT (`ansi_rt`, not proved in this generality):
   modes) and every ice mode:
       `show (load .ansi sauce (writeAnsi o p)) = show p`
   where `show` = per cell (glyph, displayed foreground RGB, background RGB, blink).
+  This file holds the theorems about `writeAnsi` = `StringGenerator` without line splitting, skipped rows and font pages,
+  which `ansi_rt` builds on (its row / cell induction is redone over the event-level writer in Lemmas/ArtAnsiF*.lean).
 
 PROVED (for ALL pictures of the stated shape — induction over rows and cells):
   * `ansi_rt_partial₄` — the round trip for ALL COLOURS a buffer can hold.  The picture's palette is arbitrary (any number of
@@ -48,10 +50,12 @@ PROVED (for ALL pictures of the stated shape — induction over rows and cells):
   * `ansi_rt_partial₁` — compress = false only, blink / unlimited mode, width 80, DOS palette, but the stronger conclusion `ShowsAll … ansiImg`: EVERY
     loaded cell IS the saved cell with the bold attribute folded into the bright colour (same character code, colour
     indices, blink and extended attributes), and the height is preserved.
-  All under the hypothesis that the file does not start with EF BB BF (known finding `ans:utf8-bom-prefix`,
-  `bom_counterexample`).
-WHAT KEEPS `ansi_rt_partial₄` FROM BEING `ansi_rt`: the BOM hypothesis (a genuine defect, recorded); `output_line_length`
-(CSI s / CR LF / CSI u line splitting), font pages other than 0 and sixels are not in the writer model; the colour
+  All under the hypothesis that the file does not start with EF BB BF: `writeAnsi` is the `StringGenerator`'s output; the
+  guard in `Ansi::to_bytes` that keeps such output from being read as UTF-8 (repair of the former finding
+  `ans:utf8-bom-prefix`) is part of `writeAnsiX` (Model/ArtAnsiX.lean), and `ansi_rt` has no such hypothesis.
+  `bom_counterexample` shows what happens WITHOUT the guard.
+WHAT THE THEOREMS OF THIS FILE LEAVE TO `ansi_rt`: the BOM guard, `output_line_length`, `skip_lines`, font pages.  Outside
+both: sixels, fonts uploaded with the file (slots >= 100), `modern_terminal_output` (excluded by the property); the colour
 optimiser (`lossles_output = false`, `normalize_whitespaces`) is C12's subject (the harness hands the writer model the
 optimised picture); the overline / invisible attribute bits, which the writer never emits, are excluded.
 -/
@@ -759,7 +763,8 @@ example : xPic.AllCells (CellDomX { useExtendedColors := false } (decide (xPic.i
   · decide +kernel
   · decide +kernel
 
-/-- the known finding at model level: the UTF-8 BOM misdetection also hits ANSI files -/
+/-- why `Ansi::to_bytes` guards its output (the former finding `ans:utf8-bom-prefix` at model level): the `StringGenerator`'s
+    bytes for this picture start with EF BB BF and the loader reads them as UTF-8 -/
 def bomPic : Pic :=
   { w := 80, rows := [[⟨239, defaultAttr⟩, ⟨187, defaultAttr⟩, ⟨191, defaultAttr⟩] ++ List.replicate 77 defaultCell], ice := .unlimited, pal := dosPalette }
 theorem bom_counterexample :
